@@ -1,7 +1,7 @@
 (* Soundness of the mini-SEVM with calls and creations (Model/SymCalls.v) against the
    reference interpreter Spec/Evm.v. *)
 From Coq Require Import ZArith List Bool Lia Arith.
-From HV Require Import Base.Word Spec.Evm Gen.GenJumpi Model.SymExec Model.SymCalls
+From HV Require Import Gen.GenBranch Base.Word Spec.Evm Gen.GenJumpi Model.SymExec Model.SymCalls
   Proofs.SymExecLemmas Proofs.SymExecSound Proofs.EvmMono Proofs.SymCallsLemmas.
 Import ListNotations.
 Open Scope Z_scope.
@@ -700,7 +700,7 @@ Proof.
   { subst c. cbn [eval bop_sem]. unfold evm_lt. rewrite Hbal. reflexivity. }
   cbn [fst] in Hin. apply in_app_or in Hin. destruct Hin as [Hin|Hin].
   - (* insufficient balance *)
-    destruct (transfers && negb (oracle (ss_path sg) c true =? R_UNSAT)) eqn:Etf; [|destruct Hin].
+    destruct (transfers && funds_fail_keep (oracle (ss_path sg) c true)) eqn:Etf; [|destruct Hin].
     apply andb_true_iff in Etf. destruct Etf as [Etr _].
     destruct (Hext _ _ _ _ _ Hin) as [pre Hp]. rewrite resume_path in Hp.
     assert (Hlt : (get_balance (s_world s) this <? V) = true).
@@ -881,10 +881,10 @@ Proof.
   assert (Hc : eval rho c = b2w (get_balance (s_world s) this <? V)).
   { subst c. cbn [eval bop_sem]. unfold evm_lt. rewrite Hbal. reflexivity. }
   assert (Hfail_branch : forall l',
-     In l' (fst (if negb (oracle (ss_path sg) c true =? R_UNSAT)
+     In l' (fst (if funds_fail_keep (oracle (ss_path sg) c true)
                  then rec fr w0 ctr1 (resume fr sg r 0 [] 0 0 w0 ((c, true) :: ss_path sg)) else ([], false))) ->
      sat rho (l2_path l') -> exists n, outcome2 (l2_kind l') (exec lim n (inst_frame fr) s)).
-  { intros l' Hin' Hsat'. destruct (negb (oracle (ss_path sg) c true =? R_UNSAT)); [|destruct Hin'].
+  { intros l' Hin' Hsat'. destruct (funds_fail_keep (oracle (ss_path sg) c true)); [|destruct Hin'].
     destruct (Hext _ _ _ _ _ Hin') as [pre Hp]. rewrite resume_path in Hp.
     assert (Hlt : (get_balance (s_world s) this <? V) = true).
     { rewrite Hp in Hsat'. apply sat_app2 in Hsat'. inversion Hsat' as [|x xs Hx _]. subst.
